@@ -212,7 +212,7 @@ def _id_task(rng, shared_gens, files, tname, nops, small):
         if small and text.count("\n") > 40:
             text = workload.truncate_at(text, rng.randint(3, 40))
         if streams and r > 0.8:
-            p = "/%s/s%d.feature" % (tname, oi)
+            p = "/simfs/%s/s%d.feature" % (tname, oi)
             files[p] = text
             paths = [p] + ([list(files)[rng.randrange(len(files))]] if rng.random() < 0.4 else [])
             ops.append({"op": "stream", "s": rng.randrange(len(streams)), "paths": paths,
